@@ -433,6 +433,8 @@ class SInt:
         return SReal.of(o) / SReal.of(s)
 
     def __and__(s, o):
+        if isinstance(o, int) and o >= 0 and (o & (o + 1)) == 0 and s.lo < 0:
+            return SInt.mk(s.e % (o + 1), 0, o)      # two's complement: x & (2^k - 1) == x mod 2^k for negative x as well
         if not (isinstance(o, int) and o >= 0) or s.lo < 0:
             raise ShimUnsupported('bit-and with a symbolic or negative operand')
         if (o & (o + 1)) == 0:
